@@ -85,7 +85,7 @@ func (l *patchLoader) LoadFileList(patchList string) (err error) {
 			return fmt.Errorf("load patch %q: %w", path, err)
 		}
 	}
-	return nil
+	return scanner.Err()
 }
 
 // parseAndCompile parses the given patch contents,
